@@ -148,7 +148,8 @@ def r1(ctx):
         fn = F.fn(PK + op)
         bad = []
         for h in range(0, MAXH + 1):
-            argvals = range(0, MAXH + 2) if extra == "depth" else [None]
+            # depths beyond the height up to the largest representable one (no arithmetic on the depth may overflow)
+            argvals = (list(range(0, MAXH + 2)) + [2 ** 64 - 2, 2 ** 64 - 1]) if extra == "depth" else [None]
             for a in argvals:
                 ex = [Sym("new")] if op == "push" else ([a] if extra == "depth" else [])
                 pops, paths = evaluate(F, fn, h, ex, sf)
